@@ -39,7 +39,7 @@ ASSUMPTIONS = [
     'not themselves renamed (keys that name no block are allowed and ignored)',
     'contract: minc only where none of the matrix block names it will create exists (the documented "Duplicate MINC '
     'matrix block name" error leaves a half-edited grid by design)',
-    'contract: a + b only when every block name present in both is unconnected in a (same reason as add_block); '
+    'contract: a + b only when every block name present in both is unconnected in a and every rock type name present in both is unused in a (same reason as add_block / add_rocktype: "the value from b is used" says nothing about a\'s dependants); '
     'embed per its own guards (no common block names; otherwise, and for a host that is too small, it returns None)',
     'check(fix=True): which of several equally frequent neighbour rock types is chosen, and the order in which several '
     'isolated blocks are fixed, are not asserted',
@@ -48,8 +48,10 @@ ASSUMPTIONS = [
     'trusted: ref/gridmodel.py written from doc/source/t2grids.rst',
 ]
 BOUNDS = {
-    'quick': {'empty': 'depth 4 full alphabet', 'seeds': 'depth 2 full alphabet, 6 seeds'},
-    'thorough': {'empty': 'depth 5 full alphabet', 'seeds': 'depth 2 full alphabet + depth 3 reduced alphabet, 6 seeds'},
+    'quick': {'empty': 'depth 3 full alphabet + 1 level reduced alphabet',
+              'seeds': '6 seeds: depth 1 full alphabet + 1 level reduced alphabet'},
+    'thorough': {'empty': 'depth 4 full alphabet',
+                 'seeds': '6 seeds: depth 2 full alphabet; chain3, ring4, datfile + 1 level reduced alphabet (depth 3)'},
 }
 TECHNIQUE = ('explicit-state breadth-first search over edit sequences on the real t2grid against a list/dict reference '
              'model; invariant and refinement checked on every transition')
@@ -508,20 +510,14 @@ def ops_of(state, depth, reduced=False):
 
 
 def ops_reduced(state):
-    """The alphabet of the deepest level: every operation kind, argument domains cut to the cases that
-    exercise back-references (each block / connection once, transpositions, 3-cycles, shift into the spare,
-    single reversals)."""
+    """The alphabet of the deepest level: every operation kind that touches names or back-references,
+    argument domains cut down (each block / connection once, transpositions, one 3-cycle, shift into the
+    spare, single reversals)."""
     m, uni = state.model, state.uni
     present = list(m.blocks)
     upres = [n for n in present if n in uni]
     ops = []
-    for r in ROCKS:
-        if r not in m.rocks:
-            ops.append(['add_rocktype', r])
-    for r in m.rocks:
-        if not m.rock_in_use(r):
-            ops.append(['delete_rocktype', r])
-    for old in m.rocks[:2]:
+    for old in m.rocks[:1]:
         for new in ROCKS + ['rock3']:
             if new not in m.rocks:
                 ops.append(['rename_rocktype', old, new])
@@ -533,46 +529,40 @@ def ops_reduced(state):
             break
     for n in upres:
         ops.append(['delete_block', n])
-    for i in range(len(present) - 1):
-        if i < 4:
-            ops.append(['add_connection', present[i], present[i + 1]])
+    if len(present) > 1:
+        ops.append(['add_connection', present[0], present[-1]])
     if m.conns:
         ops.append(['add_connection', m.conns[0][1], m.conns[0][0]])
     for c in m.conns:
         ops.append(['delete_connection', c[0], c[1]])
-    for n in upres:
-        ops.append(['demote_block', [n]])
+    if upres:
+        ops.append(['demote_block', [upres[0]]])
     if len(present) > 1:
         ops.append(['reorder', present[::-1], None])
-        ops.append(['reorder', present[1:] + present[:1], None])
     if m.conns:
-        n = len(m.conns)
         rev_ok = [i for i, c in enumerate(m.conns) if c[::-1] not in m.conns]
         for i in rev_ok:
             ops.append(['reorder', None, [list(c[::-1]) if j == i else list(c) for j, c in enumerate(m.conns)]])
-        if len(rev_ok) > 1:
-            ops.append(['reorder', None, [list(c[::-1]) if j in rev_ok else list(c) for j, c in enumerate(m.conns)]])
-        if n > 1:
+        if len(m.conns) > 1:
             ops.append(['reorder', present[::-1], [list(c[::-1]) if j in rev_ok else list(c)
                                                    for j, c in enumerate(m.conns)][::-1]])
     if geo_compatible(state):
         ops.append(['reorder_geo'])
-    maps = rename_maps(present, uni, True)
+    maps = [mp for mp in rename_maps(present, uni, True) if mp]
+    cyc3 = [mp for mp in maps if len(mp) == 3 and mp[0][0] == mp[2][1]]
     for mp in maps:
-        if mp:
+        if mp not in cyc3[1:]:
             ops.append(['rename_blocks', mp])
-    for mp in maps[1:2] + maps[-2:-1]:
-        if mp:
-            ops.append(['t2data_rename_blocks', mp, False])
+    for mp in maps[:1] + maps[-2:-1]:
+        ops.append(['t2data_rename_blocks', mp, False])
     ops.append(['check_fix'])
-    for s in [None] + [[n] for n in upres[:1]]:
+    for s in [[n] for n in upres[:1]]:
         if minc_enabled(m, MINC_FRACTIONS[1], s):
             ops.append(['minc', MINC_FRACTIONS[1], s])
-    for which in ('P1', 'P2'):
-        pg, pm = PARTNER_MODELS[which]
-        if all(not m.cons_of(n) for n in pm.blocks if n in present) and \
-                all(not m.rock_in_use(r) for r in pm.rocks if r in m.rocks):
-            ops.append(['plus', which])
+    pg, pm = PARTNER_MODELS['P1']
+    if all(not m.cons_of(n) for n in pm.blocks if n in present) and \
+            all(not m.rock_in_use(r) for r in pm.rocks if r in m.rocks):
+        ops.append(['plus', 'P1'])
     for host in upres[:1]:
         ops.append(['embed', 'P1', host])
     return ops
@@ -833,10 +823,17 @@ def step2(state, op, notes=None):
 # work units
 # ------------------------------------------------------------------------------------------------
 def plan(tier):
-    """(seed, full-alphabet depth, extra reduced-alphabet levels, number of chunks of the first level)."""
+    """(seed, full-alphabet depth, extra reduced-alphabet levels, number of chunks of the first level).
+    C08_DEV_PLAN=mini (development only, never used by the registered commands) shrinks the plan so that a
+    mutant can be screened in seconds."""
+    if os.environ.get('C08_DEV_PLAN') == 'mini':
+        return [('empty', 3, 0, 2)] + [(s, 1, 0, 2) for s in SEEDS]
     if tier == 'quick':
-        return [('empty', 4, 0, 4)] + [(s, 2, 0, 16) for s in SEEDS]
-    return [('empty', 5, 0, 16)] + [(s, 2, 1, 32) for s in SEEDS]
+        return [('empty', 3, 1, 4)] + [(s, 1, 1, 8) for s in SEEDS]
+    return [('empty', 4, 0, 8)] + [(s, 2, 1 if s in DEEP_SEEDS else 0, 24) for s in SEEDS]
+
+
+DEEP_SEEDS = ('chain3', 'ring4', 'datfile')
 
 
 def units(tier):
@@ -859,6 +856,16 @@ def run_unit(unit, tier, rec):
         bad = invariant(s.grid) or refinement(s.grid, s.model)
         return [('C08|seed:%s|%s|seed' % (seed, bad[0]), bad[1])] if bad else []
 
+    if state_check(st):
+        # an inconsistent seed is the finding of whatever built it; nothing is explored from an error state
+        if ci == 0:
+            for sg, what in state_check(st):
+                rec.violation(sg, what, {'seed': seed, 'ops': []})
+            rec.state(core.h64(canon(st)))
+            rec.transition()
+            rec.sample({'seed': seed, 'ops': [], 'note': 'seed inconsistent, not explored'}, force=True)
+        rec.count('seed_inconsistent:' + seed)
+        return
     engine_seq.bfs(rec, ID, seed, st, lambda s, d: ops_of(s, d, reduced=d >= dfull),
                    lambda s, op: step(s, op, notes, rec), canon, dfull + dred, first_ops=first,
                    state_check=state_check if ci == 0 else None)
